@@ -25,3 +25,21 @@ func VerifQueueLen(e *Engine, pid *PID) int64 {
 	}
 	return in.rb.Len()
 }
+
+// VerifChildKeys returns the keys of the children map of the process
+// registered under pid (nil when there is no such process), sorted by the
+// caller.  Read directly, without a message to the actor, so that it can be
+// used when the deterministic scheduler has run a scenario to its end.
+func VerifChildKeys(e *Engine, pid *PID) []string {
+	proc := e.Registry.get(pid)
+	if proc == nil {
+		return nil
+	}
+	p, ok := proc.(*process)
+	if !ok {
+		return nil
+	}
+	keys := []string{}
+	p.context.children.ForEach(func(k string, _ *PID) { keys = append(keys, k) })
+	return keys
+}
